@@ -218,5 +218,16 @@ func propTable() map[string]PropSpec {
 		Assume:   []string{"targetsFromGroup is replaced by a summary returning one entry per discovered address (active unless labelled drop=1); scrape.Target label accessors are summarised accordingly (its own behaviour is C15 / C02 territory); natively the real functions run on groups built to give the same outcome", "sync.Mutex Lock/Unlock are tracked (a lock taken twice, or an unlock without lock, ends the path as an error); logging is a no-op"},
 		Outside:  []string{"interleavings of readers and writers: no thread model was built, so the unlocked read of the configuration in translateTargets racing with ApplyConfig, and atomicity under concurrency, are not decided (sequential histories only)", "more than one step after the first round; more than 2 jobs"},
 	}
+	hashSubst := map[string]string{"github.com/prometheus/prometheus/model/relabel.Process": discPkg + ".vNoRelabel"}
+	t["C15"] = PropSpec{
+		ID: "C15", Pkg: discPkg, NativeDir: "discovery",
+		Quick:    []HarnessRun{{Entry: "VHash", Args: []int{0}, Subst: hashSubst, Unwind: 40, Cosim: 2}, {Entry: "VHashDedupe", Subst: hashSubst, Unwind: 40, Cosim: 2}},
+		Thorough: []HarnessRun{{Entry: "VHash", Args: []int{0}, Subst: hashSubst, Unwind: 40, Cosim: 4}, {Entry: "VHash", Args: []int{1}, Subst: hashSubst, Unwind: 40, Cosim: 2}, {Entry: "VHashDedupe", Subst: hashSubst, Unwind: 40, Cosim: 4}},
+		Required: []string{"hash.two.runs", "dedupe.same", "dedupe.two", "hash.end"},
+		Prefixes: []string{"C15."},
+		Bounds:   "targetsFromGroup / populateLabels / targetHash / labelsWithoutConfigParam / supportInvalidLabelName (and labels.New, labels.Builder, sort.Sort, scrape.NewTarget / Target.URL from source) on a group of 1 target (dedupe: 2 targets) with the labels __address__ (concrete, with and without port), foo and an invalid name \"bad-name\" with symbolic values, an optional __meta_ label with a symbolic value, every split of the labels between group and target and every map-iteration order; no relabel rules",
+		Assume:   []string{"xxhash (labels.Labels.Hash) and FNV-64a are uninterpreted functions of exactly what is fed to them (label names and values in order; the formatted label hash; the URL string): equal inputs give equal hashes, nothing is assumed about different inputs", "relabel.Process is the identity (the job has no relabel rules); net.SplitHostPort, CheckTargetAddress and the label-name / label-value validity tests run on concrete strings", "symbolic label values range over non-empty valid UTF-8 strings"},
+		Outside:  []string{"'targets that differ in any label or URL component get different hashes' is collision-freeness of xxhash/FNV and is not a bounded solver query", "stability across processes and restarts beyond independence of iteration order, addresses and time (any such dependence would be an un-stubbed call and abort the path)", "relabel programs (C02)"},
+	}
 	return t
 }
